@@ -437,8 +437,8 @@ def canaries(tier):
         return [t for t in small if t['fn'] in fns]
     return [
         {'name': 'dist: ins/del swapped in the init row',
-         'patches': [(_SA, "def levenshtein_distance(source, target, sub_cost=1, ins_cost=1, del_cost=1):\n    target = np.array(target)\n    dist = np.arange(len(target) + 1) * ins_cost",
-                      "def levenshtein_distance(source, target, sub_cost=1, ins_cost=1, del_cost=1):\n    target = np.array(target)\n    dist = np.arange(len(target) + 1) * del_cost")],
+         'patches': [(_SA, "def levenshtein_distance(source, target, sub_cost=1, ins_cost=1, del_cost=1):\n    target = np.array(target, dtype=object)\n    dist = np.arange(len(target) + 1) * ins_cost",
+                      "def levenshtein_distance(source, target, sub_cost=1, ins_cost=1, del_cost=1):\n    target = np.array(target, dtype=object)\n    dist = np.arange(len(target) + 1) * del_cost")],
          'tasks': sel('dist')},
         {'name': 'edit_stats: nsub = nphn - ncor - nins',
          'patches': [(_SA, 'nsub = nphn - ncor - ndel', 'nsub = nphn - ncor - nins')],
